@@ -35,6 +35,7 @@ func (f *fieldDefined) EnterDocument(operation, definition *ast.Document) {
 
 func (f *fieldDefined) ValidateUnionField(ref int, enclosingTypeDefinition ast.Node) {
 	if bytes.Equal(f.operation.FieldNameBytes(ref), literal.TYPENAME) {
+		f.validateTypeNameIsLeaf(ref)
 		return
 	}
 	fieldName := f.operation.FieldNameBytes(ref)
@@ -42,9 +43,19 @@ func (f *fieldDefined) ValidateUnionField(ref int, enclosingTypeDefinition ast.N
 	f.StopWithExternalErr(operationreport.ErrFieldSelectionOnUnion(fieldName, unionName))
 }
 
+// validateTypeNameIsLeaf reports a selection set on __typename, which is a String! and therefore a leaf.
+func (f *fieldDefined) validateTypeNameIsLeaf(ref int) {
+	if !f.operation.FieldHasSelections(ref) {
+		return
+	}
+	position := f.operation.SelectionSets[f.operation.Fields[ref].SelectionSet].LBrace
+	f.StopWithExternalErr(operationreport.ErrFieldSelectionOnLeaf(literal.TYPENAME, "String!", position))
+}
+
 func (f *fieldDefined) ValidateInterfaceOrObjectTypeField(ref int, enclosingTypeDefinition ast.Node) {
 	fieldName := f.operation.FieldNameBytes(ref)
 	if bytes.Equal(fieldName, literal.TYPENAME) {
+		f.validateTypeNameIsLeaf(ref)
 		return
 	}
 	typeName := f.definition.NodeNameBytes(enclosingTypeDefinition)
@@ -89,7 +100,7 @@ func (f *fieldDefined) EnterField(ref int) {
 		f.ValidateInterfaceOrObjectTypeField(ref, f.EnclosingTypeDefinition)
 	default:
 		fieldName := f.operation.FieldNameBytes(ref)
-		typeName := f.operation.NodeNameBytes(f.EnclosingTypeDefinition)
+		typeName := f.definition.NodeNameBytes(f.EnclosingTypeDefinition)
 		f.StopWithInternalErr(fmt.Errorf("astvalidation/fieldDefined/EnterField: field: %s selection on type: %s unhandled", fieldName, typeName))
 	}
 }
